@@ -350,6 +350,29 @@ class Tape(object):
         return bytes(self.r.getrandbits(8) for _ in range(n))
 
 
+class PrefixTape(Tape):
+    """randfunc whose first octets are chosen (boundary candidates for whatever sampler reads them first: order - 1, order, all ones, zeros),
+    then the ordinary tape"""
+
+    def __init__(self, tag, prefix):
+        Tape.__init__(self, tag)
+        self.prefix = bytes(prefix)
+
+    def __call__(self, n):
+        out = Tape.__call__(self, n)
+        if self.prefix:
+            k = min(n, len(self.prefix))
+            out = self.prefix[:k] + out[k:]
+            self.prefix = self.prefix[k:]
+        return out
+
+
+def boundary_prefix(kind, order):
+    nb = (order.bit_length() + 7) // 8
+    v = {"order-1": order - 1, "order": order, "order-2": order - 2, "ones": (1 << (8 * nb)) - 1, "zeros": 0, "one": 1}[kind]
+    return v.to_bytes(nb, "big")
+
+
 # Primes p = 3 g + 1, q = 4 g + 1 of 512 bits (authoring-time search with Python integers, 30 Miller-Rabin rounds) that satisfy every condition
 # RSA.generate(1024) puts on its candidates (size, p, q > sqrt(2) 2^511, |p - q| > 2^412, gcd(e, p-1) = gcd(e, q-1) = 1 for e = 65537) and for which
 # d = e^-1 mod lcm(p-1, q-1) = e^-1 mod 12 g is SMALLER than 2^512: FIPS 186-4 B.3.1 (3) wants 2^(nlen/2) < d and new primes otherwise
@@ -431,6 +454,10 @@ def rsa_corr(c, t):
         t["d"] += (p - 1) * (q - 1) // math.gcd(p - 1, q - 1) if ok else 1
     elif c == "d+phi":
         t["d"] += (p - 1) * (q - 1) if ok else 1
+    elif c == "d+(p-1)":
+        t["d"] += (p - 1) if p > 1 else 1
+    elif c == "d+(q-1)":
+        t["d"] += (q - 1) if q > 1 else 1
     elif c == "p*r":
         r = small_r(t) if ok and t["e"] > 1 and is_probable_prime(q) else None
         if r:
@@ -1376,6 +1403,8 @@ def gen_dsa(item, deep):
                 return None
         dom = {k: t[k] for k in "pqg"}
         domw = dsa_w(t["p"], t["q"], t["g"], 1, 0, False, False)
+        if item.get("tape") and t["q"] > 2:
+            tape = PrefixTape("gen-dsa/%s" % item["cid"], boundary_prefix(item["tape"], t["q"]))
         call = lambda: DSA.generate(bits, randfunc=tape, domain=(dom["p"], dom["q"], dom["g"]))  # noqa: E731
     else:
         call = lambda: DSA.generate(bits, randfunc=tape)  # noqa: E731
@@ -1392,6 +1421,7 @@ def gen_dsa(item, deep):
     pb = max(abs(dom["p"]).bit_length() if hasdom else bits, 64)
     return {"fam": "gen", "what": "dsa", "api": "generate", "bits": bits, "hasdomain": hasdom, "kid": item.get("kid", ""), "corr": item.get("corr", []),
             "dom": {k: sn(v) for k, v in dom.items()}, "w": domw, "deep": bool(deep), "exc": exc, "key": rec, "kw": kw, "tape": tape.used,
+            "entropy": item.get("tape", "pseudo-random tape"),
             "cost": 50 + (len(domw["cq"]) + links) * (pb // 100) ** 2 // 20}
 
 
@@ -1413,6 +1443,8 @@ def gen_elgamal(item, deep):
 def gen_ecc(item, deep):
     cv = curve(item["curve"])
     tape = Tape("gen-ecc/%s" % item["cid"])
+    if item.get("tape") and cv.kind == "ws":
+        tape = PrefixTape("gen-ecc/%s" % item["cid"], boundary_prefix(item["tape"], cv.n))
     key, exc = attempt(lambda: ECC.generate(curve=cv.lib, randfunc=tape), seconds=60)
     rec, kcw = ec_key_record(cv, key)
     links = []
